@@ -15,11 +15,19 @@ git apply "$PATCH" || { echo "patch does not apply"; exit 2; }
 go build ./... > /tmp/confirm_$ID.build.log 2>&1; BUILD=$?
 go test -vet=off -count=1 -run "$RUN" $EXTRA "./$PKG" > /tmp/confirm_$ID.mut.log 2>&1; MUT=$?
 rm "$PKG/zz_demo_test.go"
-SUITE=1
-for try in 1 2 3; do   # the pinned suite has a few timing/port-sensitive tests that fail under load: up to 3 attempts
-  go test -vet=off -count=1 ./... > /tmp/confirm_$ID.suite.log 2>&1; SUITE=$?
-  [ $SUITE -eq 0 ] && break
-done
+go test -vet=off -count=1 ./... > /tmp/confirm_$ID.suite.log 2>&1; SUITE=$?
+if [ $SUITE -ne 0 ]; then
+  # the pinned suite has a few timing/port-sensitive tests that fail spuriously under machine load:
+  # every package that failed must pass on its own within 6 further attempts
+  SUITE=0
+  for pkg in $(grep -E '^FAIL\s+github.com' /tmp/confirm_$ID.suite.log | awk '{print $2}'); do
+    okp=1
+    for try in 1 2 3 4 5 6; do
+      if go test -vet=off -count=1 "$pkg" >> /tmp/confirm_$ID.suite.log 2>&1; then okp=0; break; fi
+    done
+    [ $okp -ne 0 ] && SUITE=1
+  done
+fi
 echo "seed $ID: build=$BUILD demo_on_clean=$CLEAN demo_with_change=$MUT suite_with_change=$SUITE"
 if [ $BUILD -eq 0 ] && [ $CLEAN -eq 0 ] && [ $MUT -ne 0 ] && [ $SUITE -eq 0 ]; then
   D=/verif/seeded/$ID; mkdir -p $D
